@@ -60,7 +60,7 @@ Shift(cur, n) ==
 P1Init == [cur |-> <<>>, labels |-> <<>>, fills |-> <<>>, lines |-> {}]
 
 \* one statement of pass 1: [ok, st, err]
-P1Stmt(st, stmt, src, dbg) ==
+P1Stmt(st, stmt, nl, dbg) ==
   LET open == st.cur # <<>>
       bad(e) == [ok |-> FALSE, st |-> st, err |-> e]
       good(s) == [ok |-> TRUE, st |-> s, err |-> Err("none", <<>>, <<>>)]
@@ -95,24 +95,24 @@ P1Stmt(st, stmt, src, dbg) ==
         LET s2 == sp.st IN
         IF s2.cur = <<>> THEN good(s2)
         ELSE
-          LET ln == IF dbg /\ n.k \notin {".orig", ".end", ".external"} THEN {<<LineOf(src, stmt.s), s2.cur.lc>>} ELSE {}
+          LET ln == IF dbg /\ n.k \notin {".orig", ".end", ".external"} THEN {<<LineOfNl(nl, stmt.s), s2.cur.lc>>} ELSE {}
               s3 == [s2 EXCEPT !.lines = { q \in @ : \A x \in ln : q[1] # x[1] } \cup ln]
               sh == Shift(s3.cur, Size(n))
           IN IF sh.ok THEN good([s3 EXCEPT !.cur = sh.cur])
              ELSE bad(Err(sh.kind, <<Span(stmt.s, stmt.e)>>, <<>>))
 
 RECURSIVE P1Run(_, _, _, _, _)
-P1Run(st, prog, k, src, dbg) ==
+P1Run(st, prog, k, nl, dbg) ==
   IF k > Len(prog)
   THEN IF st.cur # <<>> THEN [ok |-> FALSE, st |-> st, err |-> Err("UnclosedOrig", <<Span(st.cur.os, st.cur.oe)>>, <<>>)]
        ELSE [ok |-> TRUE, st |-> st, err |-> Err("none", <<>>, <<>>)]
-  ELSE LET r == P1Stmt(st, prog[k], src, dbg) IN
-       IF ~r.ok THEN r ELSE P1Run(r.st, prog, k + 1, src, dbg)
+  ELSE LET r == P1Stmt(st, prog[k], nl, dbg) IN
+       IF ~r.ok THEN r ELSE P1Run(r.st, prog, k + 1, nl, dbg)
 
 \* relocation entries: every `.fill L` whose label is external in the finished table;
 \* such a statement outside a block is an error
 Pass1(prog, src, dbg) ==
-  LET r == P1Run(P1Init, prog, 1, src, dbg) IN
+  LET r == P1Run(P1Init, prog, 1, IF dbg THEN NlIdx(src) ELSE <<>>, dbg) IN
   IF ~r.ok THEN [ok |-> FALSE, err |-> r.err, labels |-> <<>>, rel |-> <<>>, lines |-> {}]
   ELSE
     LET ext == { i \in 1..Len(r.st.fills) : r.st.fills[i].key \in DOMAIN r.st.labels /\ r.st.labels[r.st.fills[i].key].ext }
@@ -229,120 +229,136 @@ Assemble(prog, src, dbg) ==
                      ELSE Obj(SortBlocks(p2.st.blocks), FALSE, <<>>, <<>>, FALSE, {}, <<>>)]
 
 \* ---------------------------------------------------------------------------
-\* DECLARATIVE.  Block structure by position.
-RECURSIVE OpenBefore(_, _)          \* is a block open just before statement k?
-OpenBefore(prog, k) ==
-  IF k = 1 THEN FALSE
-  ELSE LET n == prog[k - 1].n  o == OpenBefore(prog, k - 1) IN
-       IF n.k = ".orig" THEN TRUE ELSE IF n.k = ".end" THEN FALSE ELSE o
-OpenAtEnd(prog) == OpenBefore(prog, Len(prog) + 1)
+\* DECLARATIVE.  Block structure by position.  One scan gives, for every statement k,
+\* the state just before it: is a block open, which .orig opened it, and the address
+\* implied by that .orig and the sizes of the statements before k (a prefix sum).
+InfoInit == [open |-> FALSE, orig |-> 0, lc |-> -1]
+InfoStep(s, n, k) ==
+  CASE n.k = ".orig" -> [open |-> TRUE, orig |-> k, lc |-> n.a]
+    [] n.k = ".end"  -> InfoInit
+    [] OTHER -> IF s.open THEN [s EXCEPT !.lc = @ + Size(n)] ELSE s
+RECURSIVE InfoScan(_, _, _, _)
+InfoScan(prog, k, s, acc) ==
+  IF k > Len(prog) THEN [rows |-> acc, final |-> s]
+  ELSE InfoScan(prog, k + 1, InfoStep(s, prog[k].n, k), Append(acc, s))
+Info(prog) == InfoScan(prog, 1, InfoInit, <<>>)
 
-\* index of the .orig that opened the block statement k lies in (0 if none)
-RECURSIVE OrigOf(_, _)
-OrigOf(prog, k) ==
-  IF k = 1 THEN 0
-  ELSE LET n == prog[k - 1].n IN
-       IF n.k = ".orig" THEN k - 1 ELSE IF n.k = ".end" THEN 0 ELSE OrigOf(prog, k - 1)
+OpenAt(X, k) == X.rows[k].open
+AddrAt(X, k) == IF X.rows[k].open THEN X.rows[k].lc ELSE -1
 
-RECURSIVE SumSizes(_, _, _)
-SumSizes(prog, from, to) == IF from > to THEN 0 ELSE Size(prog[from].n) + SumSizes(prog, from + 1, to)
+\* the blocks: each .orig met while no block is open; a block runs to the next .end/.orig or to the end
+BlockIdxI(prog, X) == { k \in 1..Len(prog) : prog[k].n.k = ".orig" /\ ~OpenAt(X, k) }
+BlockStop(prog, o) ==
+  LET stops == { j \in (o + 1)..Len(prog) : prog[j].n.k \in {".end", ".orig"} } IN
+  IF stops = {} THEN Len(prog) + 1 ELSE CHOOSE j \in stops : \A i \in stops : j <= i
+BlockLenI(prog, X, o) ==
+  LET j == BlockStop(prog, o) IN (IF j > Len(prog) THEN X.final.lc ELSE X.rows[j].lc) - prog[o].n.a
 
-\* address of statement k: origin of its block plus the sizes of the statements before it
-AddrOf(prog, k) == LET o == OrigOf(prog, k) IN IF o = 0 THEN -1 ELSE prog[o].n.a + SumSizes(prog, o + 1, k - 1)
-
-\* the blocks: [s, len, first, last] for each .orig (closed by the matching .end or the end of the program)
-BlockIdx(prog) == { k \in 1..Len(prog) : prog[k].n.k = ".orig" /\ ~OpenBefore(prog, k) }
-RECURSIVE BlockEnd(_, _)
-BlockEnd(prog, k) == IF k > Len(prog) THEN Len(prog) ELSE IF prog[k].n.k \in {".end", ".orig"} THEN k - 1 ELSE BlockEnd(prog, k + 1)
-BlockLen(prog, o) == SumSizes(prog, o + 1, BlockEnd(prog, o + 1))
-
-\* every label definition: <<key, addr (-1 outside a block), external>>
-LabelDefsN(prog) ==
-  UNION { { <<Upper(prog[k].labels[i].name), IF OpenBefore(prog, k) THEN AddrOf(prog, k) ELSE -1, FALSE>> : i \in 1..Len(prog[k].labels) } : k \in 1..Len(prog) }
-  \cup { <<Upper(prog[k].n.lbl), 0, TRUE>> : k \in { k \in 1..Len(prog) : prog[k].n.k = ".external" } }
-
-LabelKeys(prog) == { d[1] : d \in LabelDefsN(prog) }
-LabelAddr(prog, key) == (CHOOSE d \in LabelDefsN(prog) : d[1] = key)[2]
-IsExternalKey(prog, key) == \E d \in LabelDefsN(prog) : d[1] = key /\ d[3]
+\* every label definition: <<key, addr (-1 outside a block), external, source offset>>
+LabelDefsI(prog, X) ==
+  UNION { { <<Upper(prog[k].labels[i].name), AddrAt(X, k), FALSE, prog[k].labels[i].s>> : i \in 1..Len(prog[k].labels) } : k \in 1..Len(prog) }
+  \cup { <<Upper(prog[k].n.lbl), 0, TRUE, prog[k].n.ls>> : k \in { k \in 1..Len(prog) : prog[k].n.k = ".external" } }
+KeysOf(D) == { d[1] : d \in D }
+AddrsOfKey(D, key) == { d[2] : d \in { d \in D : d[1] = key } }
+AddrOfKey(D, key) == CHOOSE a \in AddrsOfKey(D, key) : TRUE
+IsExtKey(D, key) == \E d \in D : d[1] = key /\ d[3]
+FirstSrcOfKey(D, key) == LET SS == { d[4] : d \in { d \in D : d[1] = key } } IN CHOOSE s \in SS : \A t \in SS : s <= t
 
 UsesLabel(n) == n.m = 2 /\ n.k # ".external"
 PcRel(n) == n.k \in {"BR", "LD", "LDI", "LEA", "ST", "STI", "NOP", "JSR"}
 OffBits(n) == IF n.k = "JSR" THEN 11 ELSE 9
+OffsetOf(target, at) == S16(Wrap(target - (at + 1)))       \* label address minus the address of the following word
 
-\* the five conditions of C02, each naming the error kinds that report it
-CondInBlock(prog) ==
-  /\ \A k \in 1..Len(prog) : prog[k].labels # <<>> => OpenBefore(prog, k)
-  /\ \A k \in 1..Len(prog) : prog[k].n.k \notin {".orig", ".end", ".external"} => OpenBefore(prog, k)
-  /\ \A k \in 1..Len(prog) : prog[k].n.k = ".orig" => ~OpenBefore(prog, k)
-  /\ \A k \in 1..Len(prog) : prog[k].n.k = ".end" => OpenBefore(prog, k)
-  /\ ~OpenAtEnd(prog)
-KindsInBlock(prog) ==
-       (IF \E k \in 1..Len(prog) : prog[k].labels # <<>> /\ ~OpenBefore(prog, k) THEN {"UndetAddrLabel"} ELSE {})
-  \cup (IF \E k \in 1..Len(prog) : prog[k].n.k \notin {".orig", ".end", ".external"} /\ ~OpenBefore(prog, k) THEN {"UndetAddrStmt"} ELSE {})
-  \cup (IF \E k \in 1..Len(prog) : prog[k].n.k = ".orig" /\ OpenBefore(prog, k) THEN {"OverlappingOrig"} ELSE {})
-  \cup (IF \E k \in 1..Len(prog) : prog[k].n.k = ".end" /\ ~OpenBefore(prog, k) THEN {"UnopenedOrig"} ELSE {})
-  \cup (IF OpenAtEnd(prog) THEN {"UnclosedOrig"} ELSE {})
+\* the conditions of C02, each with the error kinds that name it
+CondInBlockI(prog, X) ==
+  /\ \A k \in 1..Len(prog) : prog[k].labels # <<>> => OpenAt(X, k)
+  /\ \A k \in 1..Len(prog) : prog[k].n.k \notin {".orig", ".end", ".external"} => OpenAt(X, k)
+  /\ \A k \in 1..Len(prog) : prog[k].n.k = ".orig" => ~OpenAt(X, k)
+  /\ \A k \in 1..Len(prog) : prog[k].n.k = ".end" => OpenAt(X, k)
+  /\ ~X.final.open
+KindsInBlockI(prog, X) ==
+       (IF \E k \in 1..Len(prog) : prog[k].labels # <<>> /\ ~OpenAt(X, k) THEN {"UndetAddrLabel"} ELSE {})
+  \cup (IF \E k \in 1..Len(prog) : prog[k].n.k \notin {".orig", ".end", ".external"} /\ ~OpenAt(X, k) THEN {"UndetAddrStmt"} ELSE {})
+  \cup (IF \E k \in 1..Len(prog) : prog[k].n.k = ".orig" /\ OpenAt(X, k) THEN {"OverlappingOrig"} ELSE {})
+  \cup (IF \E k \in 1..Len(prog) : prog[k].n.k = ".end" /\ ~OpenAt(X, k) THEN {"UnopenedOrig"} ELSE {})
+  \cup (IF X.final.open THEN {"UnclosedOrig"} ELSE {})
 
-CondNoLabelClash(prog) == \A d1, d2 \in LabelDefsN(prog) : d1[1] = d2[1] => d1[2] = d2[2]
-CondOperands(prog) ==
-  \A k \in 1..Len(prog) : UsesLabel(prog[k].n) =>
-     LET key == Upper(prog[k].n.lbl) IN
-     /\ key \in LabelKeys(prog)
-     /\ PcRel(prog[k].n) => /\ ~IsExternalKey(prog, key)
-                            /\ OpenBefore(prog, k) => FitsS(S16(Wrap(LabelAddr(prog, key) - (AddrOf(prog, k) + 1))), OffBits(prog[k].n))
-KindsOperands(prog) ==
-       (IF \E k \in 1..Len(prog) : UsesLabel(prog[k].n) /\ Upper(prog[k].n.lbl) \notin LabelKeys(prog) THEN {"CouldNotFindLabel"} ELSE {})
-  \cup (IF \E k \in 1..Len(prog) : UsesLabel(prog[k].n) /\ PcRel(prog[k].n) /\ Upper(prog[k].n.lbl) \in LabelKeys(prog)
-                                  /\ IsExternalKey(prog, Upper(prog[k].n.lbl)) THEN {"OffsetExternal"} ELSE {})
-  \cup (IF \E k \in 1..Len(prog) : UsesLabel(prog[k].n) /\ PcRel(prog[k].n) /\ Upper(prog[k].n.lbl) \in LabelKeys(prog)
-                                  /\ OpenBefore(prog, k)
-                                  /\ \E d \in LabelDefsN(prog) : d[1] = Upper(prog[k].n.lbl) /\ ~d[3]
-                                        /\ ~FitsS(S16(Wrap(d[2] - (AddrOf(prog, k) + 1))), OffBits(prog[k].n))
-        THEN {"OffsetNewErr"} ELSE {})
-CondBlocks(prog) ==
-  /\ \A o \in BlockIdx(prog) : BlockLen(prog, o) > 0 => prog[o].n.a + BlockLen(prog, o) <= IO_START_A
-  /\ \A o1, o2 \in BlockIdx(prog) : (o1 # o2 /\ BlockLen(prog, o1) > 0 /\ BlockLen(prog, o2) > 0) =>
-        ~RangesOverlap(prog[o1].n.a, prog[o1].n.a + BlockLen(prog, o1), prog[o2].n.a, prog[o2].n.a + BlockLen(prog, o2))
-KindsBlocks(prog) ==
-       (IF \E o \in BlockIdx(prog) : BlockLen(prog, o) > 0 /\ prog[o].n.a + BlockLen(prog, o) > IO_START_A THEN {"BlockInIO"} ELSE {})
-  \cup (IF \E o \in BlockIdx(prog) : BlockLen(prog, o) > 0 /\ prog[o].n.a + BlockLen(prog, o) > 65536 THEN {"WrappingBlock"} ELSE {})
-  \cup (IF \E o1, o2 \in BlockIdx(prog) : o1 # o2 /\ BlockLen(prog, o1) > 0 /\ BlockLen(prog, o2) > 0
-             /\ RangesOverlap(prog[o1].n.a, prog[o1].n.a + BlockLen(prog, o1), prog[o2].n.a, prog[o2].n.a + BlockLen(prog, o2))
-        THEN {"OverlappingBlocks"} ELSE {})
+ClashKeys(D) == { key \in KeysOf(D) : Cardinality(AddrsOfKey(D, key)) > 1 }
+CondNoLabelClashI(D) == ClashKeys(D) = {}
 
-WellFormed(prog) == CondInBlock(prog) /\ CondNoLabelClash(prog) /\ CondOperands(prog) /\ CondBlocks(prog)
-ViolatedKinds(prog) == KindsInBlock(prog) \cup (IF CondNoLabelClash(prog) THEN {} ELSE {"OverlappingLabels"})
-                       \cup KindsOperands(prog) \cup KindsBlocks(prog)
+UndefinedRefs(prog, D) == { k \in 1..Len(prog) : UsesLabel(prog[k].n) /\ Upper(prog[k].n.lbl) \notin KeysOf(D) }
+ExternalRefs(prog, D)  == { k \in 1..Len(prog) : UsesLabel(prog[k].n) /\ PcRel(prog[k].n) /\ Upper(prog[k].n.lbl) \in KeysOf(D)
+                                                 /\ IsExtKey(D, Upper(prog[k].n.lbl)) }
+TooFarRefs(prog, X, D) == { k \in 1..Len(prog) : UsesLabel(prog[k].n) /\ PcRel(prog[k].n) /\ OpenAt(X, k)
+                                                 /\ \E d \in D : d[1] = Upper(prog[k].n.lbl) /\ ~d[3] /\ d[2] >= 0
+                                                       /\ ~FitsS(OffsetOf(d[2], AddrAt(X, k)), OffBits(prog[k].n)) }
+CondOperandsI(prog, X, D) == UndefinedRefs(prog, D) = {} /\ ExternalRefs(prog, D) = {} /\ TooFarRefs(prog, X, D) = {}
+KindsOperandsI(prog, X, D) ==
+       (IF UndefinedRefs(prog, D) # {} THEN {"CouldNotFindLabel"} ELSE {})
+  \cup (IF ExternalRefs(prog, D) # {} THEN {"OffsetExternal"} ELSE {})
+  \cup (IF TooFarRefs(prog, X, D) # {} THEN {"OffsetNewErr"} ELSE {})
+
+NonEmptyBlocks(prog, X) == { o \in BlockIdxI(prog, X) : BlockLenI(prog, X, o) > 0 }
+BlockOverlapPairs(prog, X) ==
+  { p \in NonEmptyBlocks(prog, X) \X NonEmptyBlocks(prog, X) : p[1] # p[2] /\
+      RangesOverlap(prog[p[1]].n.a, prog[p[1]].n.a + BlockLenI(prog, X, p[1]), prog[p[2]].n.a, prog[p[2]].n.a + BlockLenI(prog, X, p[2])) }
+CondBlocksI(prog, X) ==
+  /\ \A o \in NonEmptyBlocks(prog, X) : prog[o].n.a + BlockLenI(prog, X, o) <= IO_START_A
+  /\ BlockOverlapPairs(prog, X) = {}
+KindsBlocksI(prog, X) ==
+       (IF \E o \in NonEmptyBlocks(prog, X) : prog[o].n.a + BlockLenI(prog, X, o) > IO_START_A THEN {"BlockInIO"} ELSE {})
+  \cup (IF \E o \in NonEmptyBlocks(prog, X) : prog[o].n.a + BlockLenI(prog, X, o) > 65536 THEN {"WrappingBlock"} ELSE {})
+  \cup (IF BlockOverlapPairs(prog, X) # {} THEN {"OverlappingBlocks"} ELSE {})
+
+WellFormedI(prog, X, D) == CondInBlockI(prog, X) /\ CondNoLabelClashI(D) /\ CondOperandsI(prog, X, D) /\ CondBlocksI(prog, X)
+ViolatedKindsI(prog, X, D) == KindsInBlockI(prog, X) \cup (IF CondNoLabelClashI(D) THEN {} ELSE {"OverlappingLabels"})
+                              \cup KindsOperandsI(prog, X, D) \cup KindsBlocksI(prog, X)
+WellFormed(prog) == LET X == Info(prog) D == LabelDefsI(prog, X) IN WellFormedI(prog, X, D)
+ViolatedKinds(prog) == LET X == Info(prog) D == LabelDefsI(prog, X) IN ViolatedKindsI(prog, X, D)
 
 \* C01: the image of a well-formed program: address -> word (-1 = reserved, uninitialized)
-StmtImage(prog, k) ==
-  LET n == prog[k].n  a == AddrOf(prog, k)
-      lo(bits) == IF n.m = 2 THEN S16(Wrap(LabelAddr(prog, Upper(n.lbl)) - (a + 1))) ELSE (IF n.k \in {"JSR", "NOP"} THEN n.a ELSE n.b)
-  IN CASE n.k = ".fill" -> <<IF n.m = 2 THEN LabelAddr(prog, Upper(n.lbl)) ELSE n.a>>
+StmtImageI(prog, X, D, k) ==
+  LET n == prog[k].n  a == AddrAt(X, k)
+      lo == IF n.m = 2 THEN OffsetOf(AddrOfKey(D, Upper(n.lbl)), a) ELSE (IF n.k \in {"JSR", "NOP"} THEN n.a ELSE n.b)
+  IN CASE n.k = ".fill" -> <<IF n.m = 2 THEN AddrOfKey(D, Upper(n.lbl)) ELSE n.a>>
        [] n.k = ".blkw" -> [i \in 1..n.a |-> -1]
        [] n.k = ".stringz" -> n.strb \o <<0>>
        [] n.k \in {".orig", ".end", ".external"} -> <<>>
-       [] n.k \in {"BR", "LD", "LDI", "LEA", "ST", "STI"} -> <<Encode(I(n.k, n.a, lo(9), 0, 0))>>
-       [] n.k = "NOP" -> <<Encode(I("BR", 0, lo(9), 0, 0))>>
-       [] n.k = "JSR" -> <<Encode(I("JSR", lo(11), 0, 0, 1))>>
+       [] n.k \in {"BR", "LD", "LDI", "LEA", "ST", "STI"} -> <<Encode(I(n.k, n.a, lo, 0, 0))>>
+       [] n.k = "NOP" -> <<Encode(I("BR", 0, lo, 0, 0))>>
+       [] n.k = "JSR" -> <<Encode(I("JSR", lo, 0, 0, 1))>>
        [] OTHER -> <<StmtWord(S(n.k, n.a, n.b, n.c, n.m))>>
-ImageSpec(prog) ==     \* set of <<address, word>>
-  UNION { { <<AddrOf(prog, k) + i - 1, StmtImage(prog, k)[i]>> : i \in 1..Len(StmtImage(prog, k)) } : k \in 1..Len(prog) }
+ImageSpecI(prog, X, D) ==     \* set of <<address, word>>
+  UNION { LET w == StmtImageI(prog, X, D, k) IN { <<AddrAt(X, k) + i - 1, w[i]>> : i \in 1..Len(w) } : k \in 1..Len(prog) }
+ImageSpec(prog) == LET X == Info(prog) D == LabelDefsI(prog, X) IN ImageSpecI(prog, X, D)
 ImageOfBlocks(bs) == UNION { { <<bs[j].s + i - 1, bs[j].w[i]>> : i \in 1..Len(bs[j].w) } : j \in 1..Len(bs) }
 
 \* every label maps to the address of the statement it precedes (externals: 0, flagged)
-LabelSpec(prog) == { <<d[1], d[2], d[3]>> : d \in LabelDefsN(prog) }
+LabelSpecI(D) == { <<d[1], d[2]>> : d \in D }
+\* the external flag is fixed when all declarations of the key agree (a label at address 0 and an
+\* .external of the same name do not clash; the property leaves the flag open there)
+ExtFlagOK(D, key, ext) == /\ (\A d \in D : d[1] = key => d[3]) => ext
+                          /\ (\A d \in D : d[1] = key => ~d[3]) => ~ext
 LabelsOfObj(labels) == { <<k, labels[k].addr, labels[k].ext>> : k \in DOMAIN labels }
-\* the external flag of a key: external iff its first definition in program order is an .external
-\* (a label and an .external of the same name at address 0 do not clash; the first one wins)
+LabelAddrsOfObj(labels) == { <<k, labels[k].addr>> : k \in DOMAIN labels }
 
 \* C24: exactly the lines holding a statement that occupies memory map to its first address
-LineSpec(prog, src) ==
-  { <<LineOf(src, prog[k].s), AddrOf(prog, k)>> : k \in { k \in 1..Len(prog) : Size(prog[k].n) > 0 /\ OpenBefore(prog, k) } }
+LineSpecI(prog, X, nl) ==
+  { <<LineOfNl(nl, prog[k].s), AddrAt(X, k)>> : k \in { k \in 1..Len(prog) : Size(prog[k].n) > 0 /\ OpenAt(X, k) } }
 
 \* relocation entries: every .fill of a key that is external
-RelSpec(prog) ==
-  { <<AddrOf(prog, k), Upper(prog[k].n.lbl)>> : k \in { k \in 1..Len(prog) : prog[k].n.k = ".fill" /\ prog[k].n.m = 2
-                                                          /\ IsExternalKey(prog, Upper(prog[k].n.lbl)) } }
+RelSpecI(prog, X, D) ==
+  { <<AddrAt(X, k), Upper(prog[k].n.lbl)>> : k \in { k \in 1..Len(prog) : prog[k].n.k = ".fill" /\ prog[k].n.m = 2
+                                                          /\ Upper(prog[k].n.lbl) \in KeysOf(D) /\ IsExtKey(D, Upper(prog[k].n.lbl)) } }
 RelOfObj(rel) == { <<a, rel[a]>> : a \in DOMAIN rel }
+
+\* C26: the labels an error of the given kind may point at (upper-cased)
+OffendingLabels(prog, X, D, kind) ==
+  CASE kind = "UndetAddrLabel" -> UNION { { Upper(prog[k].labels[i].name) : i \in 1..Len(prog[k].labels) } : k \in { k \in 1..Len(prog) : ~OpenAt(X, k) } }
+    [] kind = "OverlappingLabels" -> ClashKeys(D)
+    [] kind = "CouldNotFindLabel" -> { Upper(prog[k].n.lbl) : k \in UndefinedRefs(prog, D) }
+    [] kind = "OffsetExternal" -> { Upper(prog[k].n.lbl) : k \in ExternalRefs(prog, D) }
+    [] kind = "OffsetNewErr" -> { Upper(prog[k].n.lbl) : k \in TooFarRefs(prog, X, D) }
+    [] OTHER -> {}
+IsLabelKind(kind) == kind \in {"UndetAddrLabel", "OverlappingLabels", "CouldNotFindLabel", "OffsetExternal", "OffsetNewErr"}
 =============================================================================
